@@ -197,11 +197,22 @@ def harness_run(ctx, mode, n, profile='default', extra=()):
         if hb is None:
             ctx.violations.append(('harness does not build against /repo', write_replay(ctx, 'harness_build.txt', log[-6000:]), False))
             return None, None
+        start = 0
         with open(impl + '.tmp', 'w') as out:
-            p = subprocess.run([hb, mode, '-seed', str(ctx.seed), '-n', str(n), '-profile', profile] + list(extra),
-                               stdout=out, stderr=subprocess.PIPE, text=True, timeout=3600,
-                               env=dict(os.environ, GOMEMLIMIT='8GiB'))
-        if p.returncode != 0:
+            while True:
+                p = subprocess.run([hb, mode, '-seed', str(ctx.seed), '-n', str(n), '-profile', profile, '-start', str(start)] + list(extra),
+                                   stdout=subprocess.PIPE, stderr=subprocess.PIPE, text=True, timeout=3600,
+                                   env=dict(os.environ, GOMEMLIMIT='8GiB'))
+                out.write(p.stdout)
+                if p.returncode == 3:
+                    # a case hung inside nject: the harness exits after reporting it; resume after that case
+                    last = [l for l in p.stdout.split('\n') if l.startswith('case ')]
+                    if not last:
+                        break
+                    start = int(last[-1].split()[1]) + 1
+                    continue
+                break
+        if p.returncode not in (0, 3):
             ctx.violations.append(('harness crashed (exit %d)' % p.returncode,
                                    write_replay(ctx, 'harness_crash.txt', p.stderr[-6000:]), False))
             return None, None
